@@ -1,6 +1,7 @@
 //! Shared machinery: report/evidence, violation bookkeeping, panic/alloc monitor, deterministic RNG.
 
 pub mod alloc;
+pub mod crash;
 pub mod dev;
 
 use serde_json::{json, Map, Value};
